@@ -341,7 +341,26 @@ func widen(r *rand.Rand, c *EngCase) {
 			c.Tuples = append(c.Tuples, Tup{NS: ns, Obj: wideObj, Rel: rel, Sub: Sub{IsSet: true, NS: pns, Obj: base + k, Rel: ""}})
 		}
 		if r.Intn(3) != 0 {
-			c.Tuples = append(c.Tuples, Tup{NS: pns, Obj: base + r.Intn(n), Rel: crel, Sub: sub})
+			// the granting parent: one at a page boundary of the storage order (chosen once the
+			// rows are stored, see BoundaryMember), or any
+			if r.Intn(3) != 0 {
+				off := pick(r, []int{-1, 0, 1})
+				c.BoundaryMember = func(stored []Tup) *Tup {
+					var ps []Sub
+					for _, t := range stored {
+						if t.NS == ns && t.Obj == wideObj && t.Rel == rel && t.Sub.IsSet {
+							ps = append(ps, t.Sub)
+						}
+					}
+					k := 100 + off
+					if k >= len(ps) {
+						k = len(ps) - 1
+					}
+					return &Tup{NS: ps[k].NS, Obj: ps[k].Obj, Rel: crel, Sub: sub}
+				}
+			} else {
+				c.Tuples = append(c.Tuples, Tup{NS: pns, Obj: base + r.Intn(n), Rel: crel, Sub: sub})
+			}
 		}
 		for _, t := range small {
 			// a few parents inside the small random graph
@@ -367,7 +386,28 @@ func widen(r *rand.Rand, c *EngCase) {
 		c.Tuples = append(c.Tuples, Tup{NS: q.NS, Obj: q.Obj, Rel: q.Rel, Sub: Sub{IsSet: true, NS: gns, Obj: base + k, Rel: grel}})
 	}
 	if r.Intn(3) != 0 {
-		c.Tuples = append(c.Tuples, Tup{NS: gns, Obj: base + r.Intn(n), Rel: grel, Sub: sub})
+		if r.Intn(3) != 0 {
+			// the subject is a member of the subject set that is 1000th / 1001st / 1002nd (or 2000th…)
+			// in storage order: the rows around the traverser's page boundary
+			off := pick(r, []int{-1, 0, 1})
+			mult := 1 + r.Intn(n/1000)
+			qq := c.Query
+			c.BoundaryMember = func(stored []Tup) *Tup {
+				var ss []Sub
+				for _, t := range stored {
+					if t.NS == qq.NS && t.Obj == qq.Obj && t.Rel == qq.Rel && t.Sub.IsSet {
+						ss = append(ss, t.Sub)
+					}
+				}
+				k := 1000*mult + off
+				if k >= len(ss) {
+					k = len(ss) - 1
+				}
+				return &Tup{NS: ss[k].NS, Obj: ss[k].Obj, Rel: ss[k].Rel, Sub: sub}
+			}
+		} else {
+			c.Tuples = append(c.Tuples, Tup{NS: gns, Obj: base + r.Intn(n), Rel: grel, Sub: sub})
+		}
 	}
 	for _, t := range small {
 		if t.Sub.IsSet && r.Intn(6) == 0 {
